@@ -805,7 +805,7 @@ theorem float_encoding_roundtrip (hI : IntRoundTrip) (hF : FloatRoundTrip) (u : 
 
 /-- The three shapes of a binary encoding that the library's constructor is meant for. -/
 inductive BinWF : BinEnc → Prop
-  | fixed (n : Int) (hn : n ≠ 0) :
+  | fixed (n : Int) :
       BinWF { fixedSize := some n, sizeRef := none, useCal := true, lookup := none, adjuster := none }
   | dynamic (r : String) (hr : r ≠ "") (uc : Bool) (adj : Option LinAdj) :
       BinWF { fixedSize := none, sizeRef := some r, useCal := uc, lookup := none, adjuster := adj }
@@ -826,9 +826,8 @@ theorem binary_encoding_roundtrip (hI : IntRoundTrip) (hV : FValRoundTrip) (u : 
     (hwf : BinWF e) (x : XmlNode) (hw : writeEncoding u (.bin e) = .ok x) :
     loadBinaryEncoding u x = .ok (.bin e) := by
   cases hwf with
-  | fixed n hn =>
-    have hn' : (n != 0) = true := by simpa using hn
-    simp only [writeEncoding, optTruthy, hn', if_true, pure, Except.pure, Option.getD] at hw
+  | fixed n =>
+    simp only [writeEncoding, Option.isSome_some, if_true, pure, Except.pure, Option.getD] at hw
     injection hw with hw; subst hw
     have hff : findFirst u [step "SizeInBits", step "FixedValue"]
         (mkEl u "BinaryDataEncoding" [] [mkEl u "SizeInBits" [] [mkEl u "FixedValue" [] [] (some (toString n))]])
